@@ -285,8 +285,10 @@ def judgeAll (g : Graph) (ops : List Json) (rms : List RmCmd) (obs : Array Ob) :
           | none => pure ()
           | some rows =>
             -- stood-down children are erased from the flows they were removed in
-            let stood : List Key := (B.pool.filter fun x => !M.contains x.key && removedKeys.contains x.key).map (·.key)
-            for t in M ++ stood do
+            let stood : List (Key × List Nat) :=
+              (B.pool.filter fun x => !M.contains x.key && removedKeys.contains x.key).map fun x => (x.key, concerned x.fl F)
+            -- a matched id is erased from `F`; a child that stood down from the flows it was removed in
+            for (t, F) in M.map (fun t => (t, F)) ++ stood do
               -- spawned again (or merged back into the flows) in the meantime: the rows are legitimately there
               let back := (List.range (j + 2)).any fun q => q > i && match obs[q]? with
                 | some o => o.adds.contains t || (match o.get? t with
